@@ -185,6 +185,69 @@ func buildRM(i *Inst, ptr string, pool []*pb.Transaction) (*RM, string) {
 			superseded[sk] = name
 		}
 	}
+	// existence: what a transaction consumes was created by a transaction of the
+	// applied chain or of the pool (a pool transaction whose producer was undone
+	// and that stayed behind cites something that is not, and never will be, current)
+	created := map[string]bool{}
+	written := map[string]bool{}
+	chainSuperseded := map[string]string{}
+	for _, it := range all {
+		t := it.tx
+		for off, o := range t.TxOutputs {
+			if new(big.Int).SetBytes(o.Amount).Sign() == 0 || (string(o.ToAddr) == "$" && it.proposer == "") {
+				continue
+			}
+			created[outKey(t.Txid, int32(off))] = true
+		}
+		for off, o := range t.TxOutputsExt {
+			written[o.Bucket+"/"+string(o.Key)+"@"+outKey(t.Txid, int32(off))] = true
+		}
+		if it.where != "pool" {
+			w := map[string]bool{}
+			for _, o := range t.TxOutputsExt {
+				w[o.Bucket+"/"+string(o.Key)] = true
+			}
+			for _, in := range t.TxInputsExt {
+				k := in.Bucket + "/" + string(in.Key)
+				if w[k] {
+					v := ""
+					if len(in.RefTxid) > 0 {
+						v = outKey(in.RefTxid, in.RefOffset)
+					}
+					chainSuperseded[k+"@"+v] = i.Names.Of(t.Txid)
+				}
+			}
+		}
+	}
+	for _, it := range all {
+		t := it.tx
+		kind := "chain"
+		if it.where == "pool" {
+			kind = "pool"
+		}
+		name := i.Names.Of(t.Txid)
+		for _, in := range t.TxInputs {
+			if !created[outKey(in.RefTxid, in.RefOffset)] {
+				note("%s: dangling: tx %s (%s) spends output %s_%d which no applied or pending transaction created", kind, name, it.where, i.Names.Of(in.RefTxid), in.RefOffset)
+			}
+		}
+		for _, in := range t.TxInputsExt {
+			if in.Bucket == "$transient" {
+				continue
+			}
+			k := in.Bucket + "/" + string(in.Key)
+			v := ""
+			if len(in.RefTxid) > 0 {
+				v = outKey(in.RefTxid, in.RefOffset)
+				if !written[k+"@"+v] {
+					note("%s: dangling: tx %s (%s) cites version %s of key %s which no applied or pending transaction wrote", kind, name, it.where, i.Names.Replace(v), k)
+				}
+			}
+			if by, ok := chainSuperseded[k+"@"+v]; ok && it.where == "pool" {
+				note("pool: stale: tx %s cites version %q of key %s which the applied chain (%s) has overwritten", name, i.Names.Replace(v), k, by)
+			}
+		}
+	}
 	// created minus spent
 	for _, it := range all {
 		t := it.tx
@@ -321,6 +384,12 @@ func (o *SpendOracle) Check(i *Inst, hist []string) []core.Violation {
 		sub := "conflict"
 		if strings.Contains(conflict, "already applied") || strings.Contains(conflict, "applied twice") {
 			sub = "reapplied"
+		}
+		if strings.Contains(conflict, ": dangling:") {
+			sub = "dangling_input"
+		}
+		if strings.Contains(conflict, ": stale:") {
+			sub = "stale_input"
 		}
 		out = append(out, core.Violation{Key: "c03." + kind + "_" + sub + ctx3(i, ""), Summary: "applied chain genesis.." + ptr + " plus pool is not conflict-free: " + conflict})
 	}
